@@ -141,16 +141,22 @@ type streamObs struct {
 	note    string
 }
 
-func runStream(scheme string, maxrx int, stream []byte) *streamObs {
+// late: the receive limit is set on the socket after Listen (it still governs every connection accepted afterwards)
+func runStream(scheme string, maxrx int, stream []byte, late bool) *streamObs {
 	o := &streamObs{ipc: scheme == "ipc", maxrx: maxrx, stream: stream}
 	s := wire.New("pull")
 	defer s.Close()
-	_ = s.SetOption(mangos.OptionMaxRecvSize, maxrx)
+	if !late {
+		_ = s.SetOption(mangos.OptionMaxRecvSize, maxrx)
+	}
 	ev := wire.Track(s)
 	a := wire.Addr(scheme)
 	if err := s.Listen(a); err != nil {
 		o.note = "listen: " + err.Error()
 		return o
+	}
+	if late {
+		_ = s.SetOption(mangos.OptionMaxRecvSize, maxrx)
 	}
 	ctl := wire.New("push")
 	defer ctl.Close()
@@ -271,7 +277,7 @@ func main() {
 			defer wg.Done()
 			sem <- struct{}{}
 			defer func() { <-sem }()
-			obs[i] = runStream(scheme, maxrx, st)
+			obs[i] = runStream(scheme, maxrx, st, (i/24)%2 == 1)
 		}(i)
 	}
 	wg.Wait()
